@@ -75,4 +75,10 @@ PROPS = {
         'assumptions': COMMON_ASSUME + ['Go recover() catches the run-time panics of slicing / nil dereference inside the guarded sections', 'membuffers unsafe reads stay inside the backing array for the byte strings tried (memory unsafety is not expressible in the model)'],
         'notes': ['runtime fatal errors (stack overflow, OOM on hostile sizes) are outside the model'],
     },
+    'C13': {
+        'engines': [{'name': 'world', 'quick_args': ['-n', '60'], 'thorough_args': ['-n', '1200']}, {'name': 'statehv'}],
+        'corr_modules': ['Term'],
+        'trusted_base': ['theorems in coq/props/C13.v about coq/theories/Term.v (proofs in NodeFacts.v, TermFacts.v) and Contexts.v'],
+        'assumptions': COMMON_ASSUME + ['committee totals < 2^64', 'the consumer\'s ValidateBlockProposal / ValidateBlockCommitment only accept blocks whose height is the height being decided (then the committed block has the term\'s height)', 'all State writes and callbacks happen on the worker goroutine (checked structurally by the runtime engine, not by the theorem)'],
+    },
 }
